@@ -251,8 +251,14 @@ func EnableAGW() { agwOnce.Do(annotation.InitAGWAnnos) }
 // Descs parses the program with the given parse options and returns the descriptors of the root type as
 // the request argument and as the response result of M. Cached per (IDL, options).
 func (p *Prog) Descs(o thrift.Options) (req, resp *thrift.TypeDescriptor, err error) {
+	return p.DescsN(o, 0)
+}
+
+// DescsN is Descs for the n-th independent parse of the same program (n>0 gives descriptors that are equal in
+// content but distinct objects, as two services loading the same IDL would hold).
+func (p *Prog) DescsN(o thrift.Options, n int) (req, resp *thrift.TypeDescriptor, err error) {
 	idl := p.IDL()
-	k := fmt.Sprintf("%v|%s", o, idl)
+	k := fmt.Sprintf("%d|%v|%s", n, o, idl)
 	descMu.Lock()
 	defer descMu.Unlock()
 	if d, ok := descCache[k]; ok {
